@@ -140,9 +140,9 @@ var identPool = []ident{
 	{"account", "pc", "en", "Z"},
 }
 var featPool = []string{"http://jabber.org/protocol/caps", "http://jabber.org/protocol/disco#info", "http://jabber.org/protocol/disco#items", "http://jabber.org/protocol/muc", "a", "a<b", "é", "B"}
-var fieldNames = []string{"os", "ip_version", "Os"}
+var fieldNames = []string{"os", "ip_version", "Os", ""} // the last one: a field without a var (eg. type fixed): its values still belong to the form
 var valuePool = []string{"ipv6", "ipv4", "a<b"}
-var typePool = []string{"urn:xmpp:dataforms:softwareinfo", "urn:a", "urn:a:b"}
+var typePool = []string{"urn:xmpp:dataforms:softwareinfo", "urn:a", "urn:a:b", "urn:a#meta"} // one FORM_TYPE a prefix of two others, continued by a byte above and by one below the separator
 
 // choose an ordered selection without replacement of at most max items out of n.
 func selection(c *nd.Ctx, n, max int, label string) []int {
